@@ -205,7 +205,7 @@ func vGenWildBookLog(t *rapid.T, layout string, notes bool) (vDoc, vDoc, []int) 
 }
 
 func genC13(t *rapid.T) c13Case {
-	layout := []string{"", "", "2006-01-02"}[rapid.IntRange(0, 2).Draw(t, "layout")]
+	layout := []string{"", "", "2006-01-02", "2006-01-02 15:04 -0700"}[rapid.IntRange(0, 3).Draw(t, "layout")]
 	book, log, days := vGenWildBookLog(t, layout, true)
 	// days around month/year boundaries and daylight-saving changes, under any process time zone
 	shift := []int{0, 0, 56, 362, 68, 82, 243, 306, -5, 1456}[rapid.IntRange(0, 9).Draw(t, "shift")]
@@ -216,6 +216,9 @@ func genC13(t *rapid.T) c13Case {
 			days[i] = days[i-1] + []int{365, 730, -365, 366, 1461}[rapid.IntRange(0, 4).Draw(t, "yearjumpn")]
 		}
 		log.Recs[i].Head = vFmtDay(days[i], layout)
+		if layout == "2006-01-02 15:04 -0700" {
+			log.Recs[i].Head = vGenZoneHead(t, days[i], "zone")
+		}
 	}
 	c := c13Case{Book: book, Log: log, Days: days, Layout: layout, TZ: c06Zones[rapid.IntRange(0, len(c06Zones)-1).Draw(t, "tz")]}
 	if rapid.IntRange(0, 5).Draw(t, "deep") == 0 {
@@ -410,7 +413,7 @@ func checkC14(c c14Case, ctx *vCtx) *vFailure {
 	return nil
 }
 
-var c14Layouts = []string{"", "", "2006-01-02", "02.01.2006", "02/01/2006", "2 Jan 2006", "20060102", "2006-01-02 15:04"}
+var c14Layouts = []string{"", "", "2006-01-02", "02.01.2006", "02/01/2006", "2 Jan 2006", "20060102", "2006-01-02 15:04", "2006-01-02 15:04 -0700"}
 
 func genC14(t *rapid.T) c14Case {
 	layout := c14Layouts[rapid.IntRange(0, len(c14Layouts)-1).Draw(t, "layout")]
@@ -431,6 +434,15 @@ func genC14(t *rapid.T) c14Case {
 			log.Recs[i].Head = fmt.Sprintf("%s %02d:%02d", vFmtDay(days[i], "2006-01-02"), mins/60, mins%60)
 		}
 	}
+	if layout == "2006-01-02 15:04 -0700" {
+		// a format with a numeric UTC offset: the day of a record is the one written, whatever UTC or the process zone say
+		for i := range days {
+			if i > 0 && rapid.Bool().Draw(t, "sameday") {
+				days[i] = days[i-1]
+			}
+			log.Recs[i].Head = vGenZoneHead(t, days[i], "zone")
+		}
+	}
 	// quantities with halves at the third decimal
 	for ri := range log.Recs {
 		for li := range log.Recs[ri].Lines {
@@ -441,7 +453,7 @@ func genC14(t *rapid.T) c14Case {
 	}
 	c := c14Case{Log: log, Days: days, Layout: layout, ViaEnv: rapid.Bool().Draw(t, "viaenv"), ViaCfg: rapid.IntRange(0, 2).Draw(t, "viacfg") == 0, Begin: c07Absent, End: c07Absent}
 	c.TZ = c06Zones[rapid.IntRange(0, len(c06Zones)-1).Draw(t, "tz")]
-	if layout != "2006-01-02 15:04" && rapid.IntRange(0, 3).Draw(t, "period") == 0 {
+	if !strings.HasPrefix(layout, "2006-01-02 15:04") && rapid.IntRange(0, 3).Draw(t, "period") == 0 {
 		c.Begin = shift + rapid.IntRange(0, 7).Draw(t, "b")
 		if rapid.Bool().Draw(t, "hase") {
 			c.End = shift + rapid.IntRange(0, 7).Draw(t, "e")
